@@ -505,6 +505,9 @@ class PolygonTensor(PolytopeTensor):
             try:
                 result = self._plane.meet(other._line)
             except LinearDependenceError as e:
+                if np.all(e.dependent_values):
+                    # the segment lies in the plane of the polygon: no isolated point of intersection
+                    return []
                 if isinstance(other, SegmentTensor):
                     other = cast(SegmentTensor, other[~e.dependent_values])
                 result = cast(PlaneTensor, self._plane[~e.dependent_values]).meet(other._line)
@@ -520,6 +523,9 @@ class PolygonTensor(PolytopeTensor):
         try:
             result = self._plane.meet(other)
         except LinearDependenceError as e:
+            if np.all(e.dependent_values):
+                # the line lies in the plane of the polygon: no isolated point of intersection
+                return []
             if other.free_indices > 0:
                 other = other[~e.dependent_values]
             result = cast(PlaneTensor, self._plane[~e.dependent_values]).meet(other)
